@@ -835,10 +835,16 @@ def shown_answer_search():
             hists.append(("%r typed, candidate %d committed, another word typed and finished, %r typed again" % (w, learn, w),
                           typ(w) + [{"op": "commit", "ctx": 0, "index": learn}] + typ("ki") + [{"op": "finish", "ctx": 0}] + typ(w), {"after_commit": True}))
         hists.append(("%r typed and finished, %r typed again" % (w, w), typ(w) + [{"op": "finish", "ctx": 0}] + typ(w), {}))
+        for flip in ({"english": True}, {"ansi": True}, {"smart_quote": False}):
+            c2 = dict(cfg, opts=dict(cfg["opts"], **flip))
+            hists.append(("%r typed and finished, options changed to %s by update_engine, %r typed again" % (w, json.dumps(flip), w),
+                          typ(w) + [{"op": "finish", "ctx": 0}, {"op": "update", "ctx": 0, "config": c2}] + typ(w), {"cfg2": c2}))
+            hists.append(("%r typed and committed (preselected candidate), options changed to %s by update_engine, %r typed again" % (w, json.dumps(flip), w),
+                          typ(w) + [{"op": "commit", "ctx": 0, "index": 0}, {"op": "update", "ctx": 0, "config": c2}] + typ(w), {"cfg2": c2}))
         for name, h, fl in hists:
             steps = [{"op": "new", "ctx": 0, "config": cfg}] + h
             a = len(steps) - 1
-            steps += [{"op": "new", "ctx": 1, "config": cfg}] + typ(w, ctx=1)
+            steps += [{"op": "new", "ctx": 1, "config": fl.get("cfg2", cfg)}] + typ(w, ctx=1)
             scs.append({"steps": steps})
             meta.append((name, w, a))
     for (name, w, a), sc, r in zip(meta, scs, run_replay_parallel(scs)):
@@ -973,7 +979,9 @@ def io_overrides(st, ctx):
     def modified(it, args, callee):
         if decide("modified"):
             n = ctx["io_n"]
-            return ok(Opaque("time", st.sym_bv("mtime%d" % n, 64)))
+            t = st.sym_bv("mtime%d" % n, 64)
+            ctx.setdefault("mtimes", []).append((len(ctx.get("io_log", [])), t))
+            return ok(Opaque("time", t))
         return err(Opaque("io::Error"))
 
     def meta_len(it, args, callee):
@@ -1039,14 +1047,23 @@ def make_userfile(shape):
             prev = st.sym_bv("prev_selection", 64)
             st.assume(z3.ULT(prev, 2))
             sel_map = SMap("selections", [[(0x61,), SString([0x0995])]])
+            ctx["old_mtime"] = st.sym_bv("old_mtime", 64)
             pm = mk_phonetic_method(prog, [0x61], mk_phonetic_suggestion(prog, shown, cache=SMap("cache", [[(0x61,), SVec([mk_rank(prog, "Other", [0x0995], 10)])]])),
-                                    sel_map, prev, modified=st.sym_bv("old_mtime", 64))
+                                    sel_map, prev, modified=ctx["old_mtime"])
             ctx["pm"] = pm
             ctx["sel_map"] = sel_map
             ctx["before"] = [(k, tuple(v.elems)) for k, v in sel_map.entries]
             me = Ref([pm], 0, True)
             if ev == "update":
                 fn = prog.find_trait_fn("PhoneticMethod", "Method", "update_engine")
+                return it.call_function(fn, [me, cr])
+            if ev == "update2":
+                # two re-loads in a row, the environment free at each (a file that could not be read at the first may be readable at the second,
+                # with whatever modification time)
+                fn = prog.find_trait_fn("PhoneticMethod", "Method", "update_engine")
+                it.call_function(fn, [me, cr])
+                ctx["io_mark"] = len(ctx.get("io_log", []))
+                ctx["loaded_mark"] = len(ctx.get("loaded", []))
                 return it.call_function(fn, [me, cr])
             idx = st.sym_bv("commit_index", 64)
             st.assume(z3.ULT(idx, 2))
@@ -1094,6 +1111,20 @@ def make_userfile(shape):
             after = [(k, tuple(v.elems)) for k, v in c["sel_map"].entries]
             same_sel = pm_field(prog, pm, "selections") is c["sel_map"] and after == c["before"]
             clauses.append(("reload_keeps_the_word_in_progress", bool(isinstance(shown_now, SVec) and len(shown_now.items) == 2 and list(buf) == [0x61] and same_sel)))
+        if ev == "update2":
+            mark = c.get("io_mark", len(log))
+            first, second = log[:mark], log[mark:]
+            old = pm_field(prog, pm, "modified")
+            mt = c.get("mtimes", [])
+            m1 = [t for pos, t in mt if pos < mark]
+            m2 = [t for pos, t in mt if pos >= mark]
+            loaded1 = len(c.get("loaded", [])[:c.get("loaded_mark", 0)]) > 0 and all(g for _, g in first)
+            tried2 = any(n in ("fs_read", "file_open", "read_to_end") for n, _ in second)
+            if m2 and not tried2 and all(g for _, g in second):
+                # the second re-load saw the file's time and did not read it: then the file is not newer than the last content that was loaded
+                last_ok = m1[0] if (loaded1 and m1) else c["old_mtime"]
+                clauses.append(("file_newer_than_the_last_successful_load_is_read", z3.Not(z3.UGT(m2[0], last_ok))))
+            clauses.append(("cover:update2", True))
         if ev == "commit":
             # a failed save loses at most that one learned choice
             after = [(k, tuple(v.elems)) for k, v in c["sel_map"].entries]
@@ -1215,6 +1246,65 @@ def constructor_options_native():
     return None
 
 
+def retry_after_fault_native():
+    """Native: the user's auto-correct file cannot be parsed when the engine looks at it (at start-up or at a re-load); it is then put right
+    WITHOUT a newer modification time (a copy that preserves the time, a repair within the same clock tick); after the next re-load its
+    entry must be in use."""
+    import obl_assembly
+    keys = obl_assembly.char_keys()
+    cfg = {"layout": "avro_phonetic", "database": REPO + "/data", "opts": {"phonetic_suggestion": True}}
+    good, bad = "{\"academy\":\"ekaDemi\"}", "{\"academy\":"
+    typ = [{"op": "key", "key": keys[ch], "sel": 0} for ch in "academy"]
+    T = 1900000000
+    scs = []
+    scs.append(("damaged at start-up, repaired with the same modification time", {"steps": [
+        {"op": "write_user_file", "name": "autocorrect.json", "content": bad, "mtime_at": T}, {"op": "new", "ctx": 0, "config": cfg},
+        {"op": "write_user_file", "name": "autocorrect.json", "content": good, "mtime_at": T}, {"op": "update", "ctx": 0, "config": cfg}] + [dict(x, ctx=0) for x in typ] +
+        [{"op": "new", "ctx": 1, "config": cfg}] + [dict(x, ctx=1) for x in typ]}))
+    scs.append(("damaged at a re-load, repaired with the same modification time", {"steps": [
+        {"op": "new", "ctx": 0, "config": cfg}, {"op": "write_user_file", "name": "autocorrect.json", "content": bad, "mtime_at": T}, {"op": "update", "ctx": 0, "config": cfg},
+        {"op": "write_user_file", "name": "autocorrect.json", "content": good, "mtime_at": T}, {"op": "update", "ctx": 0, "config": cfg}] + [dict(x, ctx=0) for x in typ] +
+        [{"op": "new", "ctx": 1, "config": cfg}] + [dict(x, ctx=1) for x in typ]}))
+    for (name, sc), r in zip(scs, run_replay([x[1] for x in scs])):
+        rr = r["results"]
+        if any("panic" in x for x in rr):
+            continue
+        keyed = [x for x in rr if x.get("op") == "key"]
+        a, b = keyed[len(typ) - 1].get("suggestion", {}), keyed[-1].get("suggestion", {})
+        if a.get("list") != b.get("list"):
+            return ("user auto-correct file " + name, sc, "the re-loaded context answers 'academy' with %s, a new context (same files) with %s" % (a.get("list", [])[:3], b.get("list", [])[:3]))
+    return None
+
+
+def failed_save_native():
+    """Native: the store cannot be saved (user-data directory missing / read-only) or is damaged between two commits; choices learned earlier in
+    the same context must still be preselected."""
+    import obl_assembly
+    keys = obl_assembly.char_keys()
+    cfg = {"layout": "avro_phonetic", "database": REPO + "/data", "opts": {"phonetic_suggestion": True}}
+    store = "phonetic-candidate-selection.json"
+
+    def typ(t):
+        return [{"op": "key", "key": keys[ch], "sel": 0} for ch in t]
+    faults = [("user-data directory missing", [{"op": "remove_user_dir"}], []), ("user-data directory read-only", [{"op": "chmod_user_dir", "mode": 0o555}], []),
+              ("store emptied between two commits", [], [{"op": "write_user_file", "name": store, "content": ""}]),
+              ("store damaged between two commits", [], [{"op": "write_user_file", "name": store, "content": "{\"a\":"}])]
+    scs = []
+    for name, before, between in faults:
+        steps = [{"op": "new", "config": cfg}] + before + typ("a") + [{"op": "commit", "index": 1}] + between + typ("ami") + [{"op": "commit", "index": 1}] + typ("a") + [{"op": "get_state"}]
+        scs.append((name, {"steps": steps}))
+    for (name, sc), r in zip(scs, run_replay([x[1] for x in scs])):
+        rr = r["results"]
+        if any("panic" in x for x in rr):
+            p = [x for x in rr if "panic" in x][0]
+            return (name + ": panic", sc, p["panic"])
+        sel = rr[-1].get("state", {}).get("prev_selection")
+        if sel != 1:
+            return (name + ": an earlier learned choice is lost", sc, "'a' learned (candidate 1), then 'ami' learned; typing 'a' again preselects candidate %s (store in memory: %s)" % (
+                sel, json.dumps(rr[-1].get("state", {}).get("selections"), ensure_ascii=False)[:200]))
+    return None
+
+
 def save_leak_native():
     """Native: life cycles through the C interface in which a candidate other than the preselected one is committed (so that the store is
     saved), twice per cycle, under the allocation-counting allocator: nothing may stay allocated."""
@@ -1307,7 +1397,7 @@ def reload_midword_native():
 
 
 def obl_userfiles(check, budget_s=None):
-    shapes = [dict(event="new"), dict(event="update"), dict(event="commit")]
+    shapes = [dict(event="new"), dict(event="update"), dict(event="commit"), dict(event="update2")]
     check.bounds["userfile_faults"] = dict(events="context creation (PhoneticMethod::new), update_engine, candidate_committed",
                                            environment="every file-system and serde_json call may fail or succeed independently (over-approximates absent, empty, truncated-at-any-byte, wrong-shape files, missing or read-only directory)")
     records, errors, summ = msym.run_shapes(check, "userfile_faults", shapes, make_userfile, budget_s=budget_s)
@@ -1333,6 +1423,24 @@ def obl_userfiles(check, budget_s=None):
     for (ev, clause), vs in sorted(by_ev.items()):
         if clause == "constructor_consults_the_user_files_whatever_the_options":
             found = constructor_options_native()
+            if found:
+                fname, sc, obs = found
+                check.stats["traces_validated"] += 1
+                st = check.finding("user files: " + fname, "%s: %s" % (fname, obs), dict(scenario=sc, observed=obs, solver_counterexample=vs[0]["inputs"]))
+                if worst[st] > worst[status]:
+                    status = st
+                continue
+        if clause == "file_newer_than_the_last_successful_load_is_read":
+            found = retry_after_fault_native()
+            if found:
+                fname, sc, obs = found
+                check.stats["traces_validated"] += 1
+                st = check.finding("user files: " + fname, "%s: %s" % (fname, obs), dict(scenario=sc, observed=obs, solver_counterexample=vs[0]["inputs"]))
+                if worst[st] > worst[status]:
+                    status = st
+                continue
+        if clause == "failed_save_loses_at_most_that_choice":
+            found = failed_save_native()
             if found:
                 fname, sc, obs = found
                 check.stats["traces_validated"] += 1
